@@ -247,11 +247,18 @@ theorem sendClose_Ext (s : S) (code : Option Nat) (reason : Option Bytes) : Ext 
 
 theorem rank_le_closed (st : St) : st.rank ≤ St.closed.rank := by cases st <;> decide
 
+theorem flushQueue_Ext (s : S) : Ext s (flushQueue s) :=
+  ⟨⟨Nat.le_refl _, rfl, rfl, ⟨s.sendQueue.map Out.write, rfl, by
+      intro o ho; simp only [List.mem_map] at ho; obtain ⟨b, _, rfl⟩ := ho; rfl⟩, Or.inl rfl⟩,
+    CBInv.of_eq rfl rfl rfl rfl⟩
+
 theorem dropConnection_Ext (s : S) (a : Bool) : Ext s (dropConnection s a) := by
   unfold dropConnection
   split
-  · exact Ext.trans (by exact Ext.of_st (rank_le_closed _) rfl rfl rfl rfl (by simp))
-      (Ext.trans (emit_Ext _ _ rfl) (emit_Ext _ _ rfl))
+  · have h0 : Ext s (if a then s else flushQueue s) := by split; exact Ext.refl s; exact flushQueue_Ext s
+    generalize (if a then s else flushQueue s) = s1 at h0
+    exact h0.trans (Ext.trans (by exact Ext.of_st (rank_le_closed _) rfl rfl rfl rfl (by simp))
+      (Ext.trans (emit_Ext _ _ rfl) (emit_Ext _ _ rfl)))
   · exact Ext.refl s
 
 theorem failConnection_Ext (s : S) (code : Nat) (hc : WsSpec.closeCodeOk code = true) : Ext s (failConnection s code) := by
@@ -361,7 +368,9 @@ theorem closeStateStep_Ext (s : S) (h : RCLegal s) : Ext s (closeStateStep s).1 
   · exact emit_Ext _ _ rfl
 
 theorem dropConnection_rcc (s : S) (a : Bool) : (dropConnection s a).remoteCloseCode = s.remoteCloseCode := by
-  unfold dropConnection; split <;> rfl
+  unfold dropConnection flushQueue; split
+  · cases a <;> rfl
+  · rfl
 
 theorem sendCloseFrame_rcc (s : S) (c : Option Nat) (r : Option Bytes) (b : Bool) :
     (sendCloseFrame s c r b).remoteCloseCode = s.remoteCloseCode := by
